@@ -89,6 +89,7 @@ type FnEnc struct {
 	sitePrefix          string
 	curArgs             []Val // arguments of the contract call being applied (assigns anything)
 	curBlock            *ssa.BasicBlock
+	freshObjs           []freshObj
 	checkOnly           bool // check obligations without assuming them afterwards (hints about a value that is then forgotten)
 	curIdx              int
 	callCount           map[string]int
@@ -746,13 +747,117 @@ func (fe *FnEnc) havocKeys(keys map[string]bool) {
 	}
 }
 
+// freshObj: a struct object allocated by the function under analysis (an address-taken local or a composite literal).
+type freshObj struct {
+	x   *ssa.Alloc
+	ref string
+	et  types.Type
+}
+
+// notYetEscaped: no use through which the object's address could leave the function (argument of a call, stored
+// pointer, interface conversion, return, phi, closure capture) can have executed before the current instruction:
+// every such use is later in the current block or in a block the current block strictly dominates, and the current
+// block is not on a cycle.
+func (fe *FnEnc) notYetEscaped(x *ssa.Alloc) bool {
+	if fe.top != fe || fe.curBlock == nil || x.Referrers() == nil {
+		return false
+	}
+	cur := fe.curBlock
+	// the current block must not be reachable from itself
+	seen := map[*ssa.BasicBlock]bool{}
+	stack := append([]*ssa.BasicBlock{}, cur.Succs...)
+	for len(stack) > 0 {
+		b := stack[len(stack)-1]
+		stack = stack[:len(stack)-1]
+		if b == cur {
+			return false
+		}
+		if seen[b] {
+			continue
+		}
+		seen[b] = true
+		stack = append(stack, b.Succs...)
+	}
+	later := func(u ssa.Instruction) bool {
+		b := u.Block()
+		if b == cur {
+			for i, ins := range b.Instrs {
+				if ins == u {
+					return i > fe.curIdx
+				}
+			}
+			return false
+		}
+		return cur.Dominates(b)
+	}
+	var escapes func(v ssa.Value, depth int) bool
+	escapes = func(v ssa.Value, depth int) bool {
+		if depth > 3 || v.Referrers() == nil {
+			return true
+		}
+		for _, u := range *v.Referrers() {
+			switch t := u.(type) {
+			case *ssa.FieldAddr:
+				// the address of a field: only loads and stores through it are harmless
+				if t.X != v {
+					return true
+				}
+				for _, u2 := range *t.Referrers() {
+					switch t2 := u2.(type) {
+					case *ssa.UnOp:
+					case *ssa.Store:
+						if t2.Addr != t {
+							if !later(u2) {
+								return true
+							}
+						}
+					case *ssa.DebugRef:
+					default:
+						if !later(u2) {
+							return true
+						}
+					}
+				}
+			case *ssa.UnOp, *ssa.DebugRef:
+			case *ssa.Store:
+				if t.Addr != v && !later(u) {
+					return true
+				}
+			default:
+				if !later(u) {
+					return true
+				}
+			}
+		}
+		return false
+	}
+	return !escapes(x, 0)
+}
+
 func (fe *FnEnc) havocAll(why string) {
 	fe.top.havocked[why] = true
 	keys := map[string]bool{}
 	for k := range fe.s.heapSort {
 		keys[k] = true
 	}
+	// objects this function allocated and has not yet let out of its hands keep their contents
+	type keep struct{ k, ref, old string }
+	var keeps []keep
+	if fe.top == fe {
+		for _, fo := range fe.top.freshObjs {
+			if st, ok := structOf(fo.et); ok && fe.notYetEscaped(fo.x) {
+				sn := fe.s.sortOf(fo.et)
+				for i := 0; i < st.NumFields(); i++ {
+					k := fe.s.heapKeyField(sn, st, i)
+					keeps = append(keeps, keep{k, fo.ref, fe.s.heapGet(fe.mem, k)})
+				}
+			}
+		}
+	}
 	fe.havocKeys(keys)
+	for _, kp := range keeps {
+		fe.s.assert("(= (select " + fe.s.heapGet(fe.mem, kp.k) + " " + kp.ref + ") (select " + kp.old + " " + kp.ref + "))")
+	}
 	var ks []string
 	for k := range keys {
 		ks = append(ks, k)
